@@ -55,4 +55,16 @@ PROPS = {
         "thorough": {"cases": 20000, "shards": 16, "shrinktime": "120s", "timeout_s": 3000},
         "assumptions": RUN_ASSUME,
     },
+    "C08": {
+        "test": "TestC08", "binary": "plain", "level": "exploration",
+        "rule": "rapid-generated deterministic programs that reference every engine-generated stage output (plugin: deploy_failed.error, "
+                "enabling.resolved, starting.started, disabled.output, crashed.error, closed.result; foreach: outputs.success, failed.error, "
+                "enabling.resolved) by field and as a whole from step inputs and workflow outputs, with the outcome vector that produces each, "
+                "incl. failing foreach items; oracle = no returned error contains 'bug:', the returned data unserializes with OutputSchema()[id] "
+                "(checked by the harness in the worker, independently of the engine's own check) and equals the reference's expected shape. "
+                "non-trivial = the case references an engine-generated output or a foreach step",
+        "quick": {"cases": 1200, "shards": 12, "shrinktime": "30s"},
+        "thorough": {"cases": 20000, "shards": 16, "shrinktime": "120s", "timeout_s": 3000},
+        "assumptions": RUN_ASSUME,
+    },
 }
